@@ -149,11 +149,14 @@ func (h *hist) faultRowExtras(label string, r *rowSpec) {
 
 // faultAndRetry is a composite operation: a few rows for one shard, a flush cycle in which ONE
 // drawn Flush (the metadata flush or that shard's index flush) gets a fault plan, a few more rows for
-// the shard (ingestion goes on), the next flush cycle of all shards (the retry, without a fault, crash
+// the shard (ingestion goes on: 1-3 rows), the next flush cycle of all shards (the retry, without a fault, crash
 // images at nearly every seam), recovery of the pending images. Small cycles: the stores of the
 // failed database freeze different things (some nothing), which is what the retry has to cope with.
 func (h *hist) faultAndRetry() {
 	f := h.flt
+	if limit := map[bool]int{false: 3, true: 8}[h.thorough]; h.classes["fault-and-retry"] >= limit {
+		h.t.Skip("enough fault-and-retry operations in this case")
+	}
 	h.finishCycle()
 	f.composite, f.forceShard = true, rapid.IntRange(0, h.nIdx-1).Draw(h.t, "farShard")
 	defer func() { f.composite, f.forceShard, f.forceWhat, h.allShardsInCycle = false, -1, "", false }()
@@ -168,7 +171,7 @@ func (h *hist) faultAndRetry() {
 	h.allShardsInCycle = true
 	h.flushStep()
 	h.finishCycle()
-	for i := rapid.IntRange(0, 3).Draw(h.t, "farRowsAfter"); i > 0; i-- {
+	for i := rapid.IntRange(1, 3).Draw(h.t, "farRowsAfter"); i > 0; i-- {
 		h.write("")
 	}
 	f.forceWhat = ""
@@ -226,6 +229,10 @@ func (h *hist) armFault(what string) {
 	}
 	if !strings.HasPrefix(p.Op, "manifest") {
 		p.Family = rapid.SampledFrom(fams).Draw(h.t, "faultFamily")
+		if f.composite && rapid.Bool().Draw(h.t, "faultFirstStore") {
+			// fail in the store that is flushed first: every later store keeps what it had frozen
+			p.Family = map[bool]string{true: "ns", false: "metric"}[what == "meta"]
+		}
 	}
 	switch {
 	case p.Op == "tableWrite":
